@@ -230,7 +230,7 @@ class ModelPrior:
         ndim = x.ndim
         x = x.reshape((-1, self.dim))
 
-        grads = np.zeros_like(x)
+        grads = np.zeros_like(x, dtype=float)
 
         for i in range(len(grads)):
             xi = x[i]
